@@ -28,7 +28,7 @@ LEVEL = 'exploration'
 CRASHY = True
 ASAN_TIERS = ('thorough',)
 RULE = ('Hypothesis-generated create/drop/collect/call histories over 6 callback signatures; batch sizes '
-        '1..5000 (incl. 73/74 = closures per first 4K page), drops of single/strided/half/pseudo-random/all '
+        '1..20000 (incl. 73/74 = closures per first 4K page), drops of single/strided/half/pseudo-random/all '
         'subsets, callbacks in self-cycles freed only by gc.collect(); oracle = pairwise distinct addresses '
         'of live callbacks + each sampled live callback invoked via cdata / C caller / bare address runs '
         'exactly its own function with the sent arguments and returns f(id, args) of its signature.  '
@@ -49,7 +49,7 @@ BUDGET = {'quick': 160, 'thorough': 3200}
 STEPS = {'quick': 30, 'thorough': 60}
 TIME = {'quick': 20, 'thorough': 600}
 MIN_PER_SHARD = 20      # 8 shards in the quick tier
-MAX_LIVE = 12000
+MAX_LIVE = 70000
 
 SIGS = ['int(*)(int)', 'int(*)(int, int)', 'double(*)(double)', 'long long(*)(long long, int)',
         'void(*)(int *)', 'short(*)(short, signed char, long)']
@@ -71,7 +71,8 @@ void call4(void (*f)(int *), int *p) { f(p); }
 short call5(short (*f)(short, signed char, long), short x, signed char y, long z) { return f(x, y, z); }
 """
 
-BATCH = [1, 1, 1, 2, 3, 8, 30, 72, 73, 74, 75, 146, 147, 300, 1000, 5000]
+# (20000-batches take the closure pool through its later, larger growth steps: 47, 62, 81, 106 ... pages)
+BATCH = [1, 20000, 1, 2, 3, 8, 30, 72, 73, 74, 75, 146, 147, 300, 1000, 5000]
 INTS = [0, 1, -1, 2, 7, -8, 100, -100, 12345, -12345, 32767, -32768, 2 ** 31 - 1, -2 ** 31, 65536, 46341]
 
 
